@@ -221,6 +221,9 @@ def gen_prog(r, name, ctxs, k=0):
         outs = ["aux"]
     else:
         outs = ["side", "aux", name + ".note", guard if guard == own else "side"]
+    if r.random() < 0.12:
+        # a handler that unregisters itself: its own <name>.unregister carries its stamp but must still stop it
+        outs = outs + [name + ".unregister"] * 3
     appends = []
     for _ in range(r.choice([0, 0, 1, 2, 3])):
         appends.append(dict(
@@ -258,10 +261,14 @@ def run_handler_scenario(seed, n_events=14):
             if i:
                 pre.append(i)
 
-        def register(name, ctx):
+        def register(name, ctx, quick=False):
             kind = r.choices(["ok", "parse_error", "no_arg"], [10, 1, 1])[0]
+            if quick:
+                kind = "ok"
             if kind == "ok":
                 p = gen_prog(r, name, ctxs, len(instances))
+                if quick:
+                    p["resume"] = "head"
                 if p["resume"] == "after":
                     p["resume"] = H.id_to_s(r.choice(pre)) if pre else "head"
                 script = render_handler(p)
@@ -276,7 +283,18 @@ def run_handler_scenario(seed, n_events=14):
             instances.append(inst)
             if len(report["script_samples"]) < 2:
                 report["script_samples"].append(script[:400])
-            if kind == "ok":
+            if kind == "ok" and quick:
+                # lifecycle traffic that is already in the store while the new (replaying) handler starts up
+                cl.append(name + r.choice([".unregister", ".register"]), ctx=ctx,
+                          body=render_handler(gen_prog(r, name, ctxs, 99)).encode())
+                cl.settle(0.3, 6)
+                fr0 = cl.frames()
+                regs = [f for f in fr0 if f["topic"] == name + ".registered" and f["ctx"] == ctx and f["id"] > hid
+                        and f["meta"] and f["meta"].get("handler_id") == H.id_to_s(hid)]
+                inst["registered"] = regs[0]["id"] if regs else None
+                if not regs:
+                    inst["kind"] = "did_not_start"
+            elif kind == "ok":
                 reg = cl.wait_topic(name + ".registered", ctx=ctx, after=hid)
                 inst["registered"] = reg["id"] if reg else None
                 if reg is None:
@@ -287,13 +305,15 @@ def run_handler_scenario(seed, n_events=14):
 
         register("h1", r.choice(ctxs))
         for _ in range(n_events):
-            k = r.choices(["trig", "other", "register", "unregister", "forged", "burst"], [8, 3, 2, 1, 1, 1])[0]
+            k = r.choices(["trig", "other", "register", "unregister", "forged", "burst", "quickreg"], [8, 3, 2, 1, 1, 1, 1])[0]
             if k == "trig":
                 cl.append(r.choice(["trig", "trig", "side", "t0", "t1", "h1.note", "h2.note"]), ctx=r.choice(ctxs), body=b"t"); report["triggers"] += 1
             elif k == "other":
                 cl.append(r.choice(TRIG_TOPICS), ctx=r.choice(ctxs))
             elif k == "register":
                 register(r.choice(["h1", "h1", "h2"]), r.choice(ctxs))
+            elif k == "quickreg":
+                register(r.choice(["h1", "h2"]), r.choice(ctxs), quick=True)
             elif k == "unregister" and instances:
                 inst = r.choice(instances)
                 cl.append(inst["name"] + ".unregister", ctx=r.choice([inst["ctx"], inst["ctx"], r.choice(ctxs)]))
